@@ -14,11 +14,30 @@ def declare(spec):
                       ("change_state_release", {"node": "obj:Node", "destination": NODE_OR_EXIT, "ind": "obj:Individual", "blocked": "bool"}),
                       ("change_state_renege", {"node": "obj:Node", "destination": NODE_OR_EXIT, "ind": "obj:Individual", "blocked": "bool"}),
                       ("change_state_classchange", {"node": "obj:Node", "ind": "obj:Individual"})]:
-        add(spec, "StateTracker." + m, types=params, modifies=TRK_MOD, assumed=True, allocates=True,
-            note="a tracker writes only its own state")
+        req = [("tracker-protocol:node-is-a-service-node-of-this-network", "1 <= node.id_number and node.id_number <= nnodes()")]
+        ens, mod = [], list(TRK_MOD)
+        if m == "change_state_block":
+            req.append(("tracker-protocol:blocked-towards-a-service-node", "1 <= destination.id_number and destination.id_number <= nnodes()"))
+        if m in ("change_state_release", "change_state_renege"):
+            req.append(("tracker-protocol:a-blocked-customer-leaves-towards-a-service-node",
+                        "implies(blocked, is_obj(destination, 'Node') and 1 <= destination.id_number and destination.id_number <= nnodes())"))
+        # ghost protocol of the per-class counts (C17): counted_class(ind) is the class the tracker counts ind under
+        if m == "change_state_accept":
+            mod.append("counted_class@ind")
+            ens.append(("C17:counted-under-its-current-class", "counted_class(ind) == ind.customer_class"))
+        if m in ("change_state_classchange", "change_state_release", "change_state_renege"):
+            req.append(("C17:tracker-protocol-previous_class-is-the-class-the-customer-is-counted-under",
+                        "counted_class(ind) == ind.previous_class"))
+            mod.append("counted_class@ind")
+            ens.append(("C17:counted-under-its-current-class", "counted_class(ind) == ind.customer_class") if m == "change_state_classchange"
+                       else ("C17:no-longer-counted", "counted_class(ind) is None"))
+        add(spec, "StateTracker." + m, types=params, modifies=mod, assumed=True, allocates=True, requires=req, ensures=ens,
+            note="a tracker writes only its own state; the requires are the protocol every built-in tracker relies on "
+                 "(proved at each call site in node.py, assumed by the per-tracker units of C17)")
     add(spec, "StateTracker.timestamp", modifies=TRK_MOD, assumed=True, allocates=True,
         note="verified per tracker in the C17 units")
-    add(spec, "StateTracker.hash_state", returns="val", modifies=[], assumed=True, allocates=True)
+    add(spec, "StateTracker.hash_state", returns="val", modifies=[], assumed=True, pure=True,
+        note="hash_state() is a function of the tracker state only (a tuple copy of it)")
     for m, params in [("action_at_attach_server", {"node": "obj:Node", "server": "obj:Server", "individual": "obj:Individual"}),
                       ("action_at_blockage", {"individual": "obj:Individual", "next_node": "obj:Node"}),
                       ("action_at_detatch_server", {"server": "obj:Server"}),
@@ -27,12 +46,8 @@ def declare(spec):
             note="a deadlock detector writes only its own digraph (an external networkx object)")
     add(spec, "NoDetection.detect_deadlock", returns="bool", modifies=[], assumed=True, allocates=True)
 
-    # routers: return a service node of this simulation or the exit node; may consume the customer's route
-    for m in ["next_node", "next_node_for_rerouting", "next_node_for_jockeying"]:
-        add(spec, "NetworkRouting." + m,
-            types={"ind": "obj:Individual", "node_id": "int"},
-            returns=NODE_OR_EXIT, modifies=["$seq[Route]", "route@ind"], allocates=True, assumed=True,
-            ensures=[("router-result-is-a-node-of-this-simulation", "result in self.simulation.nodes")])
+    # routers: NetworkRouting.next_node* are verified in contracts/c_routing.py; node routers supplied by the user are
+    # covered by the class-level contract NodeRouting.next_node there
     add(spec, "NetworkRouting.initialise_individual", types={"ind": "obj:Individual"}, modifies=["route@ind"],
         allocates=True, assumed=True)
 
